@@ -495,6 +495,8 @@ impl Tracer {
                         SYS_WRITE | SYS_PWRITE64 => regs.rdx = k.min(regs.rdx),
                         // a short read: fewer bytes than asked for, more would have been available (legal)
                         SYS_READ | SYS_PREAD64 => regs.rdx = k.max(1).min(regs.rdx),
+                        // gathered write: only the first of the buffers is taken (a short count at a buffer boundary)
+                        SYS_WRITEV => regs.rdx = 1.min(regs.rdx),
                         SYS_COPY_FILE_RANGE => regs.r8 = k.min(regs.r8),
                         SYS_SENDFILE => regs.r10 = k.min(regs.r10),
                         _ => {}
